@@ -289,7 +289,9 @@ func decode(kind string, b []byte, which int) (d map[string]any, msg string, has
 			d, msg, has = map[string]any{"st": "panic"}, fmt.Sprint(p), true
 		}
 	}()
-	fail := func(err error) (map[string]any, string, bool) { return map[string]any{"st": "error"}, err.Error(), true }
+	fail := func(err error) (map[string]any, string, bool) {
+		return map[string]any{"st": "error"}, err.Error(), true
+	}
 	in := append([]byte{}, b...) // decoders may alias their input
 	if which == 2 {
 		switch kind {
@@ -304,7 +306,8 @@ func decode(kind string, b []byte, which int) (d map[string]any, msg string, has
 			if len(in) < 6 {
 				return fail(fmt.Errorf("short item header"))
 			}
-			p := hotline.VerifFolderUploadPath([2]byte{in[4], in[5]}, in[6:])
+			// the item path is relative to the upload folder; a leading separator (the cleaned form) means the same
+			p := strings.TrimPrefix(hotline.VerifFolderUploadPath([2]byte{in[4], in[5]}, in[6:]), "/")
 			return ok(map[string]any{"path": sim.Ints([]byte(p))}), "", true
 		}
 		return nil, "", false
